@@ -18,7 +18,12 @@ const (
 
 type vIv struct{ s, l uint16 } // [s, s+l]
 
+const vKOp = 3 // composite: l OP r
+
 type vDesc struct {
+	inactive bool // an inactive description denotes the empty set (used for guarded layers)
+	op       int  // vKOp: vOpAnd / vOpOr / vOpXor / vOpAndNot
+	l, r     *vDesc
 	kind  int
 	elems []uint16 // array
 	ivs   []vIv    // run
@@ -92,8 +97,14 @@ func vPatWord(pat int, i int) uint64 {
 }
 
 func (d *vDesc) has(x uint16) bool {
+	return vsym.And(!d.inactive, d.has0(x))
+}
+
+func (d *vDesc) has0(x uint16) bool {
 	r := false
 	switch d.kind {
+	case vKOp:
+		return vBoolOp(d.op, d.l.has(x), d.r.has(x))
 	case vKArray:
 		for _, e := range d.elems {
 			r = vsym.Or(r, e == x)
@@ -116,8 +127,28 @@ func (d *vDesc) has(x uint16) bool {
 
 // the 1024-word bit vector of the described set
 func (d *vDesc) words() []uint64 {
+	w := d.words0()
+	if vsym.Concrete(uint64(vsym.B2I(d.inactive))) {
+		if d.inactive {
+			return make([]uint64, 1024)
+		}
+		return w
+	}
+	for i := range w {
+		w[i] = vsym.IteU64(d.inactive, 0, w[i])
+	}
+	return w
+}
+
+func (d *vDesc) words0() []uint64 {
 	w := make([]uint64, 1024)
 	switch d.kind {
+	case vKOp:
+		wl, wr := d.l.words(), d.r.words()
+		for i := range wl {
+			wl[i] = vWordOp(d.op, wl[i], wr[i])
+		}
+		return wl
 	case vKArray:
 		for _, e := range d.elems {
 			if vsym.Concrete(uint64(e)) {
@@ -182,7 +213,13 @@ func vFreeMask(nbits int) uint64 {
 }
 
 func (d *vDesc) card() int {
+	return vsym.IteInt(d.inactive, 0, d.card0())
+}
+
+func (d *vDesc) card0() int {
 	switch d.kind {
+	case vKOp:
+		return vCardOp(d.op, d.l, d.r)
 	case vKArray:
 		return len(d.elems)
 	case vKRun:
@@ -491,12 +528,14 @@ func vCheckExact(c container, sp vSpec, allowEmpty, minimal bool) {
 			x := vsym.U16()
 			vsym.Assert(vArrHas(r.content, x) == sp.has(x), "exact-set")
 		} else {
-			// inclusion + count + sorted  (threshold shapes)
-			inc := true
-			for _, e := range r.content {
-				inc = vsym.And(inc, sp.has(e))
+			// threshold shapes: the bit vector of the result equals the specified bit vector (linear in the size)
+			rw := (&vDesc{kind: vKArray, elems: r.content}).words()
+			sw := sp.words()
+			eq := true
+			for i := range rw {
+				eq = vsym.And(eq, rw[i] == sw[i])
 			}
-			vsym.Assert(inc, "exact-inclusion")
+			vsym.Assert(eq, "exact-words")
 			vsym.Assert(len(r.content) == sp.card(), "exact-count")
 		}
 	case *runContainer16:
